@@ -33,7 +33,7 @@ from pyvc.engine import Engine, CallModel, ObjModel, SymList, SymMem, UNK, PathE
 from pyvc.loops import assigned_names
 
 
-def schedule_lemma(rep, which):
+def schedule_lemma(rep, which, prop='C10'):
     """which: 'simulator' (Simulator.run) or 'trace' (trace.Tracer.run)."""
     from skoolkit.simulator import Simulator
     import skoolkit.trace as TR
@@ -152,7 +152,7 @@ def schedule_lemma(rep, which):
                 eng.call_function(fn, [tr, SV(z3.BitVec('start', W), 0, 65535), SV(z3.BitVec('stop', W), 0, 65535), SV(z3.BitVec('max_ops', W), 0, 1 << 30), 0,
                                        p.interrupts, None, None, None, None, '$', '02X', '04X'])
         eng = SchedEngine(inline_ok=lambda f: False, unknown_ok=True)
-        FuncVC(rep, 'C10', fn, 'skoolkit.%s[interrupt schedule, frame=%d]' % ('simulator.Simulator.run' if which == 'simulator' else 'trace.Tracer.run', fd), eng,
+        FuncVC(rep, prop, fn, 'skoolkit.%s[interrupt schedule, frame=%d]' % ('simulator.Simulator.run' if which == 'simulator' else 'trace.Tracer.run', fd), eng,
                own_kinds=('inv.establish', 'inv.establish_multiple', 'inv.preserve', 'inv.preserve_multiple', 'decision.range', 'decision.offered_only_in_window', 'decision.offered_whenever_in_window', 'no_overflow', 'def_before_use')).run(start, None, None)
 
 
